@@ -146,9 +146,9 @@ def run(tier, seed, model):
             for _ in range(rng.randrange(4, 9)):
                 r_ = rng.random()
                 if r_ < 0.3:
-                    x, y = rng.randrange(0, 40), rng.randrange(0, 40)
-                    if rng.random() < 0.5:
-                        x, y = min(40, pos[0] + rng.randrange(0, 5)), pos[1]
+                    # at most 7 steps of 0.2 s: well inside the proxy's 4 s per-call timeout (timed-out calls are excluded)
+                    x = max(0, min(40, pos[0] + rng.randrange(-7, 8)))
+                    y = max(0, min(40, pos[1] + rng.randrange(-7, 8)))
                     calls.append({"method": "mouseDrag", "args": [x, y, rng.choice([1, 2])], "sleep": 0, "exp": ["ret", "obj"], "async": 0})
                     pos = (x, y)
                 elif r_ < 0.5:
